@@ -10,6 +10,10 @@ source text is `TaskModel.Remote.Tie` (`remote_skeleton_ok` …, regenerated on 
 plus the correspondence domain `remote` (harness/remote.go: the real CLI against a loopback
 HTTP server over sequences of server states × flags × prompt answers).
 
+The second part (from "Chains" on) lifts every property to invocations that read a remote
+Taskfile *and* the remote Taskfile it includes, under the one `--timeout` deadline of the
+invocation (`TaskModel.Remote.Chain`, `invokeChain`; driver op `remote.chain`).
+
 All statements are over **arbitrary histories** (`List Step`, no length bound) starting
 from the empty cache, and over an arbitrary checksum function `sha` — nothing is assumed
 about it.  What is proved is about *checksums*: "the checksum of what runs is the approved
